@@ -179,6 +179,10 @@ def one_call(item, ex, specs, rng, lo, hi, small=False, plan=None, exact=False):
                         except Exception:  # pylint: disable=broad-except
                             delta = float("inf")
             rec["conditioning"] = {"discrepancy": disc, f"response_to_{eps:g}": delta, "cancellation": kappa}
+            try:
+                rec["rel_discrepancy"] = N._absdiff(got, want) / max(N._absmax(got), N._absmax(want), 1e-300)  # pylint: disable=protected-access
+            except Exception:  # pylint: disable=broad-except
+                rec["rel_discrepancy"] = 1.0
             if disc <= 10 * delta or kappa > 1e6:
                 rec.update(status="inadmissible", kind=label, why=f"{label} evaluation point (discrepancy {disc:.3g} is below "
                     f"10x the real function's response {delta:.3g} to a {eps:g} relative change of its arguments, or "
@@ -280,7 +284,9 @@ def work(idx):
         out["tie"] = {"admissible": n_ok, "attempts": attempts,
             "ok": sum(c["status"] == "ok" for c in calls),
             "bad": [c for c in calls if c["status"] != "ok"][:3],
-            "bad_exact": any(c.get("exact") for c in calls if c["status"] != "ok"),
+            # an exact-argument tuple that disagrees by more than 1e-4 relative is a disagreement of the formula; below
+            # that it is still the precision mechanism (e.g. scale_factor() casts an argument to float before dsolve)
+            "bad_exact": any(c.get("exact") and c.get("rel_discrepancy", 1.0) > 1e-4 for c in calls if c["status"] != "ok"),
             "sample": calls[0] if calls else None,
             "units": sorted({u for c in calls for us in c["units"].values() for u in us})}
     except Exception as e:  # pylint: disable=broad-except
